@@ -7,7 +7,7 @@
     TotalSize; [p_allocs / p_counts / p_lc / p_fully] are gpuAllocations / layerCounts / layerCount / fullyLoaded at
     the end of the function.  [r_ok r = true] says that no uint64 operation of the run wrapped around. *)
 From Coq Require Import List NArith ZArith Bool.
-From V Require Import Common.Bytes Mem.Model Mem.Proofs.
+From V Require Import Common.Bytes Mem.Model Mem.Proofs Mem.Sched Mem.SchedProofs.
 Import ListNotations.
 Open Scope N_scope.
 
@@ -153,6 +153,49 @@ Theorem C16_by_library_partition : forall all,
 Proof. intros all. split; [apply by_library_groups|apply by_library_complete]. Qed.
 Print Assumptions C16_by_library_partition.
 
+(** ** 6. the path the scheduler takes to the estimator (server/sched.go; model Mem/Sched.v).
+    [gpus] is the list reported by discovery, [rs] the loaded runners (loading flag, GPU IDs, EstimatedVRAMByGPU), [mp p]
+    the model-file inputs for the parallel setting p. *)
+
+(** updateFreeSpace never raises a GPU's FreeMemory and changes nothing else; with filterGPUsWithoutLoadingModels in front,
+    every GPU handed to the estimator is a reported GPU whose FreeMemory is at most the reported value *)
+Theorem C16_sched_free_never_raised : forall rs gpus,
+  Forall2 not_raised gpus (update_free rs gpus) /\
+  (forall g', In g' (update_free rs (filter_loading rs gpus)) -> exists g, In g gpus /\ not_raised g g').
+Proof. intros rs gpus. split; [apply update_free_not_raised|apply handed_not_raised]. Qed.
+Print Assumptions C16_sched_free_never_raised.
+
+(** pickBestFullFitByLibrary: a non-nil answer is a non-empty set of GPUs of the list it was given, of one
+    library/variant, chosen with a parallel setting it was allowed to try, and PredictServerFit said yes for exactly it *)
+Theorem C16_sched_pick_full_sound : forall gpus spread np mp o p chosen,
+  pick_full gpus spread np mp o = Some (p, chosen) ->
+  In p (tries np) /\ chosen <> [] /\ (forall x, In x chosen -> In x gpus) /\
+  (forall x y, In x chosen -> In y chosen -> x_key x = x_key y) /\
+  fst (predict_server_fit (map x_g chosen) (mp p) o) = true.
+Proof. exact pick_full_sound. Qed.
+Print Assumptions C16_sched_pick_full_sound.
+
+(** end to end, other models loaded: whatever the scheduler hands to NewLlamaServer, the plan computed for it puts on
+    every GPU nothing, or at most the REPORTED free memory of that GPU less the overhead *)
+Theorem C16_sched_per_gpu_bound_reported : forall rs gpus spread np mp o avail p chosen i,
+  sched_loaded rs gpus spread np mp o = (avail, Some (p, chosen)) ->
+  let r := plan_for chosen (mp p) o in
+  r_ok r = true ->
+  nth i (r_sizes r) 0 = 0 \/
+  exists g, In g gpus /\ same_ident g (nth i chosen x0) /\ nth i (r_sizes r) 0 + o_overhead o <= x_free g.
+Proof. exact sched_loaded_bound. Qed.
+Print Assumptions C16_sched_per_gpu_bound_reported.
+
+(** end to end, first model (full fit, else best partial fit): the chosen GPUs are reported GPUs, unchanged *)
+Theorem C16_sched_first_per_gpu_bound : forall gpus spread np mp o p chosen i,
+  sched_first gpus spread np mp o = (p, chosen) ->
+  let r := plan_for chosen (mp p) o in
+  r_ok r = true ->
+  nth i (r_sizes r) 0 = 0 \/
+  (In (nth i chosen x0) gpus /\ nth i (r_sizes r) 0 + o_overhead o <= x_free (nth i chosen x0)).
+Proof. exact sched_first_bound. Qed.
+Print Assumptions C16_sched_first_per_gpu_bound.
+
 (** ** non-vacuity: the guard [r_ok] and the fit hypothesis are met by non-trivial cases *)
 Definition ex_gs : list gpu := [mkgpu 9000 100 [99; 117; 100; 97] []; mkgpu 400 100 [99; 117; 100; 97] []; mkgpu 5000 0 [99; 117; 100; 97] []].
 Definition ex_m : model :=
@@ -173,4 +216,15 @@ Proof. vm_compute. reflexivity. Qed.
 Example C16_partial_offload_example :
   let r := estimate [mkgpu 2000 100 [99; 117; 100; 97] []] ex_m (mkopts 50 (-1) []) in
   r_ok r = true /\ r_layers r = 3 /\ p_fully r = false /\ r_vram r < r_total r.
+Proof. vm_compute. repeat split. Qed.
+
+(** non-vacuity: a GPU with 8000 of 10000 bytes free of which our loaded runner predicts 5000 is handed over with 5000;
+    a GPU on which a foreign application holds memory (free 600 of 10000, ours 1000) keeps 600 *)
+Definition ex_x (id : N) (total free : N) : xgpu := mkx [id] total (mkgpu free 100 [99; 117; 100; 97] []).
+Definition ex_rs : list runner := [mkrunner false [[48]] true [([48], 5000); ([49], 1000)]].
+Example C16_sched_example :
+  map x_free (update_free ex_rs [ex_x 48 10000 8000; ex_x 49 10000 600; ex_x 50 10000 9000]) = [5000; 600; 9000] /\
+  snd (sched_loaded ex_rs [ex_x 48 10000 8000; ex_x 49 10000 600; ex_x 50 10000 9000] false 1 (fun _ => ex_m) ex_o)
+    = Some (1%Z, [ex_x 50 10000 9000]) /\
+  r_ok (plan_for [ex_x 50 10000 9000] ex_m ex_o) = true /\ r_layers (plan_for [ex_x 50 10000 9000] ex_m ex_o) = 5.
 Proof. vm_compute. repeat split. Qed.
